@@ -7,7 +7,7 @@ class C03(Prop):
     pid = "C03"
     lean_targets = ["M17.Props.C03"]
     theorems = ["M17.C03.gen_consts", "M17.C03.step_finv", "M17.C03.run_finv", "M17.C03.mid_step", "M17.C03.steady_next_symbol",
-                "M17.C03.frame_delivery", "M17.C03.doStreamSync_spec", "M17.C03.step_dcd_on", "M17.C03.coast_step", "M17.C03.coasting_bounded"]
+                "M17.C03.frame_delivery", "M17.C03.doStreamSync_spec", "M17.C03.step_dcd_on", "M17.C03.coast_step", "M17.C03.coasting_bounded", "M17.C03.locked_step", "M17.C03.lock_needs_decodable_frames"]
     level_text = ("PARTIAL proof. Lean 4 theorems about the control skeleton of M17Demodulator::operator() (M17/Model/Demod.lean: the seven-state "
                   "sync/frame machine, its counters, the symbol-sampling schedule and the framer index, with every analog quantity — correlator "
                   "triggers, carrier-detect decisions, clock estimates, Viterbi cost, decoder state — an arbitrary per-sample event), for ALL event "
